@@ -250,6 +250,29 @@ OldTanhFinite ==
             x == ToX(c.ty, xq)
             res == BX!DivB(c.ty, BX!ElemB(c.ty, "sinh", x), BX!ElemB(c.ty, "cosh", x))
         IN  \A mm \in DOMAIN JetX(c.ty, res) : XFinite(JetX(c.ty, res)[mm])
+\* argument classes of the cylindrical Bessel functions (bessel.rs switches between series, rational approximation,
+\* asymptotic form and recurrence on them): <<class, lower bound of |x| (inclusive), upper bound (exclusive), sign>>.
+\* The branch each function takes in a class is BX!BesselJ0Branch etc.; the harness must sweep every class (both signs,
+\* both sides of every switch) -- it refuses to run otherwise.
+BesselClasses ==
+    << <<"zero", <<0, 1>>, <<0, 1>>, 0>>,
+       <<"tiny+", <<0, 1>>, <<1, 100000>>, 1>>, <<"tiny-", <<0, 1>>, <<1, 100000>>, -1>>,     \* (0 itself excluded by the sign)
+       <<"below03+", <<1, 100000>>, <<3, 10>>, 1>>, <<"below03-", <<1, 100000>>, <<3, 10>>, -1>>,
+       <<"small+", <<3, 10>>, <<49, 10>>, 1>>, <<"small-", <<3, 10>>, <<49, 10>>, -1>>,
+       <<"five+", <<49, 10>>, <<51, 10>>, 1>>, <<"five-", <<49, 10>>, <<51, 10>>, -1>>,
+       <<"large+", <<51, 10>>, <<61, 1>>, 1>>, <<"large-", <<51, 10>>, <<61, 1>>, -1>> >>
+BranchOf(fn, cls) ==
+    LET cl == IF cls \in {"below03+", "below03-"} /\ fn # "bessel_j2" THEN (IF cls = "below03+" THEN "small+" ELSE "small-") ELSE cls
+    IN  CASE fn = "bessel_j0" -> BX!BesselJ0Branch(cl) [] fn = "bessel_j1" -> BX!BesselJ1Branch(cl) [] OTHER -> BX!BesselJ2Branch(cl)
+BranchesTotal ==
+    \A fn \in {"bessel_j0", "bessel_j1", "bessel_j2"} : \A i \in 1..Len(BesselClasses) :
+        BranchOf(fn, BesselClasses[i][1]) \in {"series", "rational", "asymptotic", "recurrence"}
+ExportBesselClasses ==
+    (c.k = "zero4" /\ c.fn = "sph_j0") =>
+        PrintT(<<"BESSELCLASSES", ToJson([i \in 1..Len(BesselClasses) |->
+            [cls |-> BesselClasses[i][1], lo |-> BesselClasses[i][2], hi |-> BesselClasses[i][3], sign |-> BesselClasses[i][4],
+             j0 |-> BranchOf("bessel_j0", BesselClasses[i][1]), j1 |-> BranchOf("bessel_j1", BesselClasses[i][1]),
+             j2 |-> BranchOf("bessel_j2", BesselClasses[i][1])]])>>)
 \* the series the harness uses as oracle next to zero (one line per function)
 SeriesFns == {"sph_j0", "sph_j1", "sph_j2", "bessel_j0", "bessel_j1", "bessel_j2"}
 ExportSeries ==
@@ -266,5 +289,5 @@ CoefDecay ==
             /\ QLe(QInt((k + 1) * (k + 2)), QAbs(QDiv(a[k], a[k + 2])))
             /\ QSign(a[k]) # QSign(a[k + 2])
 \* the closed forms divide out: the numerators vanish to the order of the divisor
-SeriesWellDefined == (\A fn \in {"sph_j0", "sph_j1", "sph_j2"} : LowZero(SphNum(fn), SphPow(fn))) /\ CoefDecay
+SeriesWellDefined == BranchesTotal /\ (\A fn \in {"sph_j0", "sph_j1", "sph_j2"} : LowZero(SphNum(fn), SphPow(fn))) /\ CoefDecay
 =============================================================================
